@@ -902,7 +902,22 @@ func checkNested(c NestedCase) error {
 		if got == c.Inner && n == 0 && err == nil && sz > 0 {
 			return fmt.Errorf("read %d (%s): (0, nil) after the inner limit %d was delivered, want a *LimitError", i, name, c.Inner)
 		}
-		_ = err
+		var le *ioutil.LimitError
+		if errors.As(err, &le) && sz > 0 {
+			// Whose limit is it?  The outer reader's own error only once its
+			// own budget has been delivered; before that an error of the
+			// inner reader passes through as it is, however often.
+			switch {
+			case name == "outer" && viaOuter == c.Outer && n == 0:
+				if le.Limit != c.Outer {
+					return fmt.Errorf("read %d (outer): its budget %d is delivered, the error carries limit %d", i, c.Outer, le.Limit)
+				}
+			default:
+				if le.Limit != c.Inner || got != c.Inner {
+					return fmt.Errorf("read %d (%s): *LimitError{%d} after %d bytes in total (%d of them through the outer reader); inner limit %d, outer limit %d: the outer reader may report its own limit only when its own budget has been delivered", i, name, le.Limit, got, viaOuter, c.Inner, c.Outer)
+				}
+			}
+		}
 	}
 	vp.Class("nested:case")
 	if viaOuter > 0 && got > viaOuter {
